@@ -202,7 +202,7 @@ pub fn inactive_peer(_a: &Value) -> Value {
     use jsonrpsee_server::PingConfig;
     let rt = tokio::runtime::Builder::new_multi_thread().worker_threads(2).enable_all().build().unwrap();
     rt.block_on(async move {
-        let ping = PingConfig::new().ping_interval(Duration::from_millis(100)).inactive_limit(Duration::from_millis(200)).max_failures(1);
+        let ping = PingConfig::new().ping_interval(Duration::from_millis(50)).inactive_limit(Duration::from_millis(70)).max_failures(3);
         let cfg = ServerConfig::builder().max_connections(1).enable_ws_ping(ping).build();
         let server = Server::builder().set_config(cfg).build("127.0.0.1:0").await.unwrap();
         let addr = server.local_addr().unwrap();
